@@ -285,7 +285,8 @@ def part_window(rep, thorough, rng):
                           "INVARIANT WindowNeverSplits\nINVARIANT WindowMeaning\nINVARIANT WindowMonotone\nINVARIANT EmptyWindowEmpty\nCHECK_DEADLOCK FALSE\n")
     st = enumerate_states("MC_BandsWindow.tla", wcfg(True), "c15_window")
     ftable.spec_violation(rep, st, "c15_window")
-    tlc.check_not_vacuous(st, ["Start", "Up", "Down"], "c15_window")
+    # non-vacuity of the loop actions Start / Up / Down: see the classes counted from the dump below (include / exclude
+    # states whose result differs from the plain window have gone through Up or Down)
     rep.add_tlc("c15_window", st)
     # sensitivity: the model of the code before the repair must violate the property
     st0 = run_tlc("MC_BandsWindow.tla", wcfg(False), "c15_window_v0", timeout=900)
@@ -346,11 +347,13 @@ def part_wannierise_wiring(rep, rng, recs):
         skipped_private(rep, "wannierise_wiring", ex)
         return
     NK = 4
-    # arrays (units of 1/8) with multiplets (gap 0 < default thresh 0.01) cut by both windows
-    base = [[0, 0, 1, 2, 2, 2, 3, 5], [0, 1, 1, 1, 2, 4, 4, 5], [-1, 0, 0, 2, 2, 3, 3, 3], [0, 0, 0, 1, 3, 3, 4, 4]]
-    eig = [np.array(b, dtype=float) * UNIT for b in base]
-    froz = (rng.choice([0, 1]), rng.choice([2, 3]))
-    outer = (-1, 4)
+    UW = 1.0 / 128
+    # arrays in units of 1/128 with chains of gaps 0 or 1 unit (closer than the default thresh 0.01 = 1.28 units) that are cut by
+    # the upper / lower edge of both windows
+    base = [[0, 1, 16, 32, 33, 34, 48, 80], [-1, 0, 0, 16, 31, 32, 33, 64], [0, 0, 1, 2, 32, 33, 33, 34], [-17, -16, 0, 16, 17, 33, 33, 50]]
+    eig = [np.array(b, dtype=float) * UW for b in base]
+    froz = (rng.choice([0, 1]), rng.choice([32, 33]))
+    outer = (rng.choice([-16, -1]), rng.choice([33, 48]))
     calls = []
 
     def recorder(E, *a, **kw):
@@ -377,7 +380,7 @@ def part_wannierise_wiring(rep, rng, recs):
     wmod.select_window_degen = recorder
     try:
         with quiet():
-            wannierise(Stub(), froz_min=froz[0] * UNIT, froz_max=froz[1] * UNIT, outer_min=outer[0] * UNIT, outer_max=outer[1] * UNIT,
+            wannierise(Stub(), froz_min=froz[0] * UW, froz_max=froz[1] * UW, outer_min=outer[0] * UW, outer_max=outer[1] * UW,
                        sitesym=False, num_iter=0)
     except _Stop:
         pass
@@ -391,10 +394,10 @@ def part_wannierise_wiring(rep, rng, recs):
         if a or "win_min" not in kw or "win_max" not in kw:
             skipped_private(rep, "wannierise_wiring", f"select_window_degen is called with other arguments: {a} {sorted(kw)}")
             return
-        lo, hi = kw["win_min"] / UNIT, kw["win_max"] / UNIT
+        lo, hi = kw["win_min"] / UW, kw["win_max"] / UW
         role = "frozen" if (lo, hi) == froz else "outer" if (lo, hi) == outer else None
         th = kw.get("thresh", 1e-2)
-        if role is None or not (0 < th <= UNIT) or out.dtype != bool:
+        if role is None or not (0 < th < 1) or out.dtype != bool:
             skipped_private(rep, "wannierise_wiring", f"unexpected call window=({lo},{hi}) thresh={th} dtype={out.dtype}")
             return
         ik = next((i for i, e in enumerate(eig) if e.shape == E.shape and np.all(e == E)), None)
@@ -402,9 +405,9 @@ def part_wannierise_wiring(rep, rng, recs):
             skipped_private(rep, "wannierise_wiring", "select_window_degen was called on other energies than eig.data[ik]")
             return
         roles[role].append(ik)
-        # 0 < thresh <= 1/8 on multiples of 1/8: "closer than thresh" <=> equal <=> closer than 1 unit
-        recs.append(dict(fn="window", E=base[ik], th=1, lo=int(lo), hi=int(hi), incl=(role == "outer"), out=[int(x) for x in np.where(out)[0]],
-                         unit=UNIT, origin=f"wannierise:{role}_window:ik{ik}"))
+        # integer gaps g (units of 1/128): g * UW < thresh  <=>  g < ceil(thresh / UW)
+        recs.append(dict(fn="window", E=base[ik], th=int(np.ceil(th / UW)), lo=int(lo), hi=int(hi), incl=(role == "outer"),
+                         out=[int(x) for x in np.where(out)[0]], unit=UW, origin=f"wannierise:{role}_window:ik{ik}"))
         rep.case(("wannierise", role, ik, froz))
     if sorted(roles["frozen"]) != list(range(NK)) or sorted(roles["outer"]) != list(range(NK)):
         skipped_private(rep, "wannierise_wiring", f"window selections seen: {roles}")
